@@ -46,8 +46,11 @@ Orders == 0..3       \* requested derivative orders; 0,1,2 are supported (README
 (* loudly" there, so such a call is downgraded from "ok" to "any" (if it   *)
 (* returns, the shape is still checked).  Size 1 is never downgraded.      *)
 Empty(d) == \E k \in 1..Len(d) : d[k] = 0
-C(op, d, a, p, exp, sh) == [op |-> op, d |-> d, a |-> a, p |-> p,
-                            exp |-> IF exp = "ok" /\ Empty(d) THEN "any" ELSE exp, sh |-> sh]
+(* val: for a read access that must return, the value it must read (<<>> = *)
+(* not constrained).                                                       *)
+CV(op, d, a, p, exp, sh, val) == [op |-> op, d |-> d, a |-> a, p |-> p,
+                                  exp |-> IF exp = "ok" /\ Empty(d) THEN "any" ELSE exp, sh |-> sh, val |-> val]
+C(op, d, a, p, exp, sh) == CV(op, d, a, p, exp, sh, <<>>)
 Cls(pre)     == IF pre THEN "ok" ELSE "reject"
 Idx(n)       == -1..n            \* -1, 0, .., n-1 in range (if any), n out of range
 Bnd(n)       == -1..(n+1)        \* slice bounds: 0..n admissible
@@ -210,6 +213,40 @@ RealCases ==
   \/ \E hn \in D, hm \in D, n \in D :
         c = C("CopyHessian", <<hn, hm, n>>, <<>>, <<>>, Cls(hn = n /\ hm = n), <<hn, hm>>)
 
+(* ---------------------------------------- shrinking re-allocation (history) *)
+(* The index domain of the derivative accessors is the CURRENT number of   *)
+(* variables N, whatever the scalar held before.  History: the scalar      *)
+(* first holds first and second derivatives for n1 variables (all slots    *)
+(* non-zero), then it is re-allocated for n2 < n1 variables with order o2  *)
+(* in one of five ways:                                                    *)
+(*   Alloc        x.Alloc(n2, o2)                                          *)
+(*   SetVariable  x.SetVariable(0, n2, o2)                                 *)
+(*   Variables    x is element 0 of a vector of n1 variables; the slice of *)
+(*                its first n2 elements is passed to Variables(o2) again   *)
+(*   Set          x.Set(b), b the variable 0 of n2 variables, order o2     *)
+(*   Receiver     x.Mul(a, a), a = 3 the variable 0 of n2 variables, order *)
+(*                o2 (x is the receiver of an operation on fewer variables)*)
+(* Afterwards GetDerivative(i) / SetDerivative(i, v) / GetHessian(i, j) /  *)
+(* SetHessian(i, j, v) with an index outside 0..n2-1 must be rejected      *)
+(* (indices in n2..n1-1 would hit the old storage), and an admissible read *)
+(* returns the FRESH value: 0 after Alloc; dx/dx_0 = 1, second derivatives *)
+(* 0 after SetVariable / Variables / Set; d(a a)/da = 2a = 6 and           *)
+(* d2(a a)/da2 = 2 for the receiver.  With o2 = 1 the Hessian accessors    *)
+(* ask for a derivative order the scalar does not hold ("any").            *)
+ShrinkWays == {"Alloc", "SetVariable", "Variables", "Set", "Receiver"}
+FreshD(w, i)    == IF w = "Alloc" THEN 0 ELSE IF i # 0 THEN 0 ELSE IF w = "Receiver" THEN 6 ELSE 1
+FreshH(w, i, j) == IF w = "Receiver" /\ i = 0 /\ j = 0 THEN 2 ELSE 0
+ShrinkCases ==
+  \/ \E w \in ShrinkWays, n1 \in 2..DMax : \E n2 \in 1..(n1-1), o2 \in 1..2, i \in Idx(n1) :
+        \/ c = CV("RShrink." \o w \o ".GetDerivative", <<n1, n2>>, <<o2, i>>, <<>>, Cls(In(i, n2)), <<>>, <<FreshD(w, i)>>)
+        \/ c = CV("RShrink." \o w \o ".SetDerivative", <<n1, n2>>, <<o2, i>>, <<>>, Cls(In(i, n2)), <<>>, <<>>)
+  \/ \E w \in ShrinkWays, n1 \in 2..DMax : \E n2 \in 1..(n1-1), o2 \in 1..2, i \in Idx(n1), j \in Idx(n1) :
+        \/ c = CV("RShrink." \o w \o ".GetHessian", <<n1, n2>>, <<o2, i, j>>, <<>>,
+                   IF o2 < 2 THEN "any" ELSE Cls(In(i, n2) /\ In(j, n2)), <<>>,
+                   IF o2 < 2 THEN <<>> ELSE <<FreshH(w, i, j)>>)
+        \/ c = CV("RShrink." \o w \o ".SetHessian", <<n1, n2>>, <<o2, i, j>>, <<>>,
+                   IF o2 < 2 THEN "any" ELSE Cls(In(i, n2) /\ In(j, n2)), <<>>, <<>>)
+
 (* --------------------------------------------- algorithm entry points *)
 (* SqCls(n,m): defined for square matrices with at least one row; the      *)
 (* empty matrix is a degenerate size the sources do not decide.            *)
@@ -275,7 +312,7 @@ OptionCases ==
         c = C("opt.gramSchmidt.InSitu.Q", <<n, qn, qm>>, <<>>, <<>>, Cls(qn = n /\ qm = n), <<n, n>>)
 
 (* -------------------------------------------------------------- output *)
-Init == VectorCases \/ MatrixCases \/ PermuteCases \/ RealCases \/ AlgoCases \/ OptionCases
+Init == VectorCases \/ MatrixCases \/ PermuteCases \/ RealCases \/ ShrinkCases \/ AlgoCases \/ OptionCases
 Next == UNCHANGED c
 Spec == Init /\ [][Next]_c
 
